@@ -699,6 +699,22 @@ class BaseSection(base.Sectionable):
             if mine is not None:
                 mine.merge_check(obj, strict)
 
+    def _merge_name_check(self, source_section):
+        """
+        Recursively checks that every child Section of a source Section that has no
+        counterpart of the same name and type in self can be added to self, and raises
+        a ValueError if its name is already used by a child Section of another type.
+
+        :param source_section: an odML Section.
+        """
+        for obj in source_section.sections:
+            mine = self.contains(obj)
+            if mine is not None:
+                mine._merge_name_check(obj)
+            elif obj.name in self.sections:
+                raise ValueError("odml.Section.merge: a Section named '%s' with a different "
+                                 "type already exists in the destination!" % obj.name)
+
     def merge(self, section=None, strict=True):
         """
         Merges this section with another *section*.
@@ -725,6 +741,7 @@ class BaseSection(base.Sectionable):
         # its children can be merged with self and its children since
         # there is no rollback in case of a downstream merge error.
         self.merge_check(section, strict)
+        self._merge_name_check(section)
 
         if self.definition is None and section.definition is not None:
             self.definition = section.definition
